@@ -37,7 +37,7 @@ Live   == IF NCalls = 0 THEN TRUE ELSE heap[Len(heap)].kind # "X"     \* nothing
 VLists(vs) ==
     IF Cardinality(vs) > 3 THEN {}
     ELSE LET foreign == IF AllNames \ vs = {} THEN {} ELSE {CHOOSE n \in AllNames \ vs : TRUE} IN
-         SetToSeqs(vs) \cup (IF Cardinality(vs) <= 2 /\ foreign # {} THEN SetToSeqs(vs \cup foreign) ELSE {})
+         SetToSeqs(vs) \cup (IF (Cardinality(vs) <= 2 \/ "V3" \in Want) /\ foreign # {} THEN SetToSeqs(vs \cup foreign) ELSE {})
 \* exact total degree of the denotation: >= 0 polynomial of that degree; -1 not a polynomial by normal form
 \* (transcendental atom, fractional / negative / variable power, division by zero function);
 \* -2 guarded arithmetic overflowed; -3 rational function with a non-constant denominator (left to the numeric test)
